@@ -75,8 +75,12 @@ def gen_lines(rng, with_comments):
         elif k < 0.75 and not with_comments:
             out.append(("stmt", ind, "set x = 1"))
         elif k < 0.88 and not with_comments:
-            out.append(("stmt", ind, rng.choice(["if true", "for i in [1, 2]", "if 1 < 2"])))
+            out.append(("stmt", ind, rng.choice(["if true", "for i in [1, 2]", "if 1 < 2",
+                                                 "for i in [1,\n   2]", "if (1 <\n 2)", "for k in {'a':\n\t1}",
+                                                 "for i in [1,\n\n 2,\n 3]", "if [(1,\n 2)]"])))
             depth.append(out[-1][2].split()[0])
+        elif k < 0.9 and not with_comments:
+            out.append(("stmt", ind, rng.choice(["set x = [1,\n 2]", "set x = (1 +\n  2)", "set x = {'a': (1,\n 2)}"])))
         elif depth and not with_comments:
             out.append(("stmt", ind, "end" + depth.pop()))
         else:
@@ -167,6 +171,9 @@ def run(ctx):
     ctx.rng.shuffle(cfgs)
     cfgs = cfgs[:ctx.size(70, 240)]
     base = jinja2.Environment()
+    # the parent is USED (it has lexed and rendered) before any overlay is derived from it
+    base.from_string("{% if true %}x{% endif %}{# c #}\n").render()
+    list(base.lex("{{ 1 }}"))
     first_envs = {}
     jobs = []
     for ci, c in enumerate(cfgs):
@@ -190,10 +197,31 @@ def run(ctx):
         ref = safe(jinja2, lambda: jinja2.Environment(**kw).from_string(src).render())
         kws = list(kw.items())
         half = len(kws) // 2
+        def used_chain():
+            # every link of the chain renders something before the next overlay is taken from it
+            o1 = base.overlay(**dict(kws[:half]))
+            try:
+                o1.from_string("a{# c #}\n").render()
+            except jinja2.TemplateSyntaxError:
+                pass
+            return o1.overlay(**dict(kws[half:])).from_string(src).render()
+
+        def used_other():
+            # overlay of an already used environment that was configured differently
+            cj = ctx.rng.choice(sorted(first_envs))
+            parent = first_envs[cj]
+            try:
+                parent.from_string("a\n").render()
+            except jinja2.TemplateSyntaxError:
+                pass
+            return parent.overlay(**kw).from_string(src).render()
+
         outs = {
             "Template(...)": safe(jinja2, lambda: jinja2.Template(src, **kw).render()),
-            "overlay": safe(jinja2, lambda: base.overlay(**kw).from_string(src).render()),
+            "overlay of a used environment": safe(jinja2, lambda: base.overlay(**kw).from_string(src).render()),
             "overlay chain": safe(jinja2, lambda: base.overlay(**dict(kws[:half])).overlay(**dict(kws[half:])).from_string(src).render()),
+            "overlay chain with used links": safe(jinja2, used_chain),
+            "overlay of another used configuration": safe(jinja2, used_other),
             "earlier environment": safe(jinja2, lambda: first_envs[ci].from_string(src).render()),
         }
         case = {"kind": "constructors", "cfg": c.describe(), "src": src}
@@ -304,8 +332,10 @@ def replay(ctx, data):
         kw, src = c.kwargs(), case["src"]
         ref = safe(jinja2, lambda: jinja2.Environment(**kw).from_string(src).render())
         t = safe(jinja2, lambda: jinja2.Template(src, **kw).render())
-        o = safe(jinja2, lambda: jinja2.Environment().overlay(**kw).from_string(src).render())
-        print("source:", repr(src), case["cfg"], "\nEnvironment:", ref, "\nTemplate(...):", t, "\noverlay:", o)
+        parent = jinja2.Environment()
+        parent.from_string("{% if true %}x{% endif %}").render()     # the parent is used before the overlay is taken
+        o = safe(jinja2, lambda: parent.overlay(**kw).from_string(src).render())
+        print("source:", repr(src), case["cfg"], "\nEnvironment:", ref, "\nTemplate(...):", t, "\noverlay of a used environment:", o)
         print("(interleaving-dependent failures need the full run: ./check C13)")
         if len({ref, t, o}) != 1:
             ctx.reject(case, "Environment %r, Template %r, overlay %r" % (ref, t, o), data.get("signature"))
